@@ -45,6 +45,11 @@ WITNESS_TESTS = {
     "file": "witness/c04_data_with_last_handshake_bytes.rs", "props": ["C04"], "pairs_fn": ["hs_app_actions", "ZmtpEngine::process_ready", "ZmtpEngine::process_v2_identity"],
     "what": "raw TCP peer writes greeting + READY (or the ZMTP/2.0 identity frame) + two messages in ONE write to a PULL socket: both messages are delivered",
   },
+  "c13_wait_for_connection_lost_wakeup": {
+    "file": "witness/c13_wait_for_connection_lost_wakeup.rs", "props": ["C13"], "pairs_fn": ["LoadBalancer::wait_for_connection"],
+    "append_to": "core/src/socket/patterns/load_balancer.rs", "test_filter": "verif_lost_wakeup_witness",
+    "what": "two OS threads, 600000 rounds: one polls wait_for_connection() by hand, the other adds a peer at a varying offset; a future left Pending must have been woken",
+  },
   "c11_router_takeover_then_old_detach": {
     "file": "witness/c11_router_takeover_then_old_detach.rs", "props": ["C11"], "pairs_fn": ["RouterMap::remove_peer_by_read_pipe", "RouterMap::update_peer_identity", "RouterMap::add_peer"],
     "what": "DEALER reconnects with the same routing id while the ROUTER still holds the old connection; after the old connection is detached the identity still routes to the live one",
@@ -238,9 +243,10 @@ PROPS["C13"] = {
   "kani_quick": [], "kani_thorough": [],
   "claim": "Proved for every history of add/remove/get on the verbatim LoadBalancer (representation invariant: no duplicate peers, cursor in range): get_next_connection serves exactly the peer under the cursor and advances it round-robin; "
            "a peer joins once at the end; removing a peer keeps the order of the others and the peer that would have been served next is still next (its successor if it was the removed one). "
+           "wait_for_connection subscribes to the peer-added signal before it looks at the peer list (ghost epochs: no peer added in between can be missed: no lost wake-up), and a joining peer wakes every parked sender. "
            "try_route_sync hands the batch to at most one peer, skips full peers, tries every peer of the rotation exactly once before giving up (cursor back at the start), and returns the very batch on refusal.",
   "level_note": "Lock model (rewrite R6): each balancer method is one critical section under its mutex and is verified as a &mut operation on the protected state; the sweep result is stated for a peer set that does not change during the sweep. "
-                "Starvation freedom over a run, wait_for_connection's check-then-wait window, route_message's blocking path and the DEALER pending queue are schedule properties: not covered.",
+                "Starvation freedom over a run, route_message's blocking path and the DEALER pending queue are schedule properties: not covered.",
   "technique": "contract-based deductive verification (Verus; abstract view + representation invariant; vstd modular-arithmetic lemmas)",
   "trusted_base": COMMON_TRUSTED + ["R8 helpers for iterator adapters any()/position() over the peer list (contract = std semantics)", "ISocketConnection: a refused batch is returned unchanged (assumed for trait objects)"],
   "assumptions": ["each LoadBalancer method holds its mutex from first to last statement (checked by reading: one lock() per method)"],
